@@ -59,183 +59,98 @@ func intBits(t types.Type) (bits int, signed bool, ok bool) {
 }
 
 func exitCodeProvenance(c *an.Ctx, r *runnerRoles, rule string) {
-	f := r.execute
 	n := 0
-	an.EachInstr(f, func(in ssa.Instruction) {
-		sto, ok := in.(*ssa.Store)
-		if !ok {
-			return
-		}
-		ap := an.AccessPath(sto.Addr)
-		if ap.LastField() != "ExitCode" || !an.TypeIs(ap.Base.Type(), "pkg/task", "Task") {
-			return
-		}
-		n++
-		key := an.Short(f) + ":ExitCode"
-		v := sto.Val
-		bad := ""
-		for {
-			cv, ok := v.(*ssa.Convert)
+	for _, f := range r.scope {
+		f := f
+		an.EachInstr(f, func(in ssa.Instruction) {
+			sto, ok := in.(*ssa.Store)
 			if !ok {
-				break
+				return
 			}
-			fb, fs, ok1 := intBits(cv.X.Type())
-			tb, ts, ok2 := intBits(cv.Type())
-			switch {
-			case !ok1 || !ok2:
-				bad = "conversion through a non-integer type"
-			case fs == ts && tb < fb:
-				bad = fmt.Sprintf("narrowing conversion %s → %s", cv.X.Type(), cv.Type())
-			case !fs && ts && tb <= fb:
-				bad = fmt.Sprintf("conversion %s → %s can change the sign of statuses ≥ %d", cv.X.Type(), cv.Type(), 1<<(uint(tb)-1))
-			case fs && !ts:
-				bad = fmt.Sprintf("signed → unsigned conversion %s → %s", cv.X.Type(), cv.Type())
+			ap := an.AccessPath(sto.Addr)
+			if ap.LastField() != "ExitCode" || !an.TypeIs(ap.Base.Type(), "pkg/task", "Task") {
+				return
 			}
-			v = cv.X
-		}
-		ext, isExt := v.(*ssa.Extract)
-		okProv := false
-		if isExt && ext.Index == 0 {
-			if call, ok := ext.Tuple.(*ssa.Call); ok {
-				if cc, ok := an.IsCallTo(call, fnIsExitStatus, "mvdan.cc/sh/v3/interp.IsExitStatus"); ok {
-					// on the error of the Execute call of this loop
-					for _, src := range an.Sources(cc.Args[0]) {
-						if e, ok := src.(*ssa.Extract); ok {
-							if ec, ok := e.Tuple.(*ssa.Call); ok {
-								if _, ok := isExecCall(ec); ok {
-									okProv = true
+			if k, isConst := an.ConstInt(sto.Val); isConst && k == 0 {
+				return // the reset
+			}
+			n++
+			key := an.Short(f) + ":ExitCode"
+			bad := ""
+			okProv := false
+			var walk func(v ssa.Value, depth int)
+			walk = func(v ssa.Value, depth int) {
+				if depth > 6 {
+					return
+				}
+				for _, src := range c.P.DeepSources(v, 3, true) {
+					switch x := src.(type) {
+					case *ssa.Convert:
+						fb, fs, ok1 := intBits(x.X.Type())
+						tb, ts, ok2 := intBits(x.Type())
+						switch {
+						case !ok1 || !ok2:
+							bad = "conversion through a non-integer type"
+						case fs == ts && tb < fb:
+							bad = fmt.Sprintf("narrowing conversion %s → %s", x.X.Type(), x.Type())
+						case !fs && ts && tb <= fb:
+							bad = fmt.Sprintf("conversion %s → %s can change the sign of statuses ≥ %d", x.X.Type(), x.Type(), 1<<(uint(tb)-1))
+						case fs && !ts:
+							bad = fmt.Sprintf("signed → unsigned conversion %s → %s", x.X.Type(), x.Type())
+						}
+						walk(x.X, depth+1)
+					case *ssa.Extract:
+						if x.Index != 0 {
+							continue
+						}
+						call, ok := x.Tuple.(*ssa.Call)
+						if !ok {
+							continue
+						}
+						if cc, ok := an.IsCallTo(call, fnIsExitStatus, "mvdan.cc/sh/v3/interp.IsExitStatus"); ok {
+							for _, es := range c.P.DeepSources(cc.Args[0], 3, true) {
+								if e, ok := es.(*ssa.Extract); ok {
+									if ec, ok := e.Tuple.(*ssa.Call); ok {
+										if _, ok := isExecCall(ec); ok {
+											okProv = true
+										}
+									}
 								}
 							}
 						}
 					}
 				}
 			}
-		}
-		if !okProv {
-			bad = "the stored value is not the status reported by IsExitStatus for the failing command's error: " + an.Prov(sto.Val)
-		}
-		if bad != "" {
-			c.Bad(rule, key, sto.Pos(), "Task.ExitCode: %s", bad)
-		} else {
-			c.OK(rule, key, sto.Pos(), "ExitCode := status of IsExitStatus(err) of the failing command, value-preserving conversions")
-		}
-	})
+			walk(sto.Val, 0)
+			if !okProv {
+				bad = "the stored value is not the status reported by IsExitStatus for the failing command's error: " + an.Prov(sto.Val)
+			}
+			if bad != "" {
+				c.Bad(rule, key, sto.Pos(), "Task.ExitCode: %s", bad)
+			} else {
+				c.OK(rule, key, sto.Pos(), "ExitCode := status of IsExitStatus(err) of the failing command, value-preserving conversions")
+			}
+		})
+	}
 	if n == 0 {
-		c.Bad(rule, an.Short(f)+":ExitCode", f.Pos(), "the job walk never records the failing command's exit status")
+		c.Bad(rule, an.Short(r.execute)+":ExitCode", r.execute.Pos(), "the job walk never records the failing command's exit status")
 	}
 }
 
 func deferredReset(c *an.Ctx, r *runnerRoles, rule string) {
 	p := c.P
-	// the deferred closure of Run that writes ExitCode
-	var reset *ssa.Function
-	var resetStore *ssa.Store
-	for _, fn := range an.WithAnon(r.run) {
-		an.EachInstr(fn, func(in ssa.Instruction) {
-			if sto, ok := in.(*ssa.Store); ok {
-				ap := an.AccessPath(sto.Addr)
-				if ap.LastField() == "ExitCode" && an.TypeIs(ap.Base.Type(), "pkg/task", "Task") {
-					reset, resetStore = fn, sto
-				}
-			}
-		})
-	}
-	if reset == nil {
-		c.Bad(rule, an.Short(r.run)+":reset", r.run.Pos(), "Run never resets ExitCode for a successful task")
-		return
-	}
-	deferred := false
-	an.EachInstr(r.run, func(in ssa.Instruction) {
-		if d, ok := in.(*ssa.Defer); ok {
-			for _, callee := range p.Callees(&d.Call) {
-				if callee == reset {
-					deferred = true
-				}
-			}
-		}
-	})
-	if reset == r.run {
-		deferred = true
-	}
-	c.Check(deferred, rule, an.Short(reset)+":deferred", resetStore.Pos(), "the reset runs in a deferred function of Run (on every exit)", "the ExitCode reset is not deferred")
-	isTaskField := func(v ssa.Value, field string) bool {
-		u, ok := v.(*ssa.UnOp)
-		if !ok || u.Op != token.MUL {
-			return false
-		}
-		if _, isFA := u.X.(*ssa.FieldAddr); !isFA {
-			return false
-		}
-		ap := an.AccessPath(u.X)
-		return ap.LastField() == field && len(ap.Fields) == 1 && an.TypeIs(ap.Base.Type(), "pkg/task", "Task") && (r.task == nil || an.SameValue(ap.Base, r.task))
-	}
-	var table []string
-	for _, errored := range []bool{false, true} {
-		for _, skipped := range []bool{false, true} {
-			errored, skipped := errored, skipped
-			ex := &an.Explorer{P: p, NoReturn: noReturn}
-			ex.Atom = func(v ssa.Value) (an.AVal, bool) {
-				if isTaskField(v, "Errored") {
-					return an.ABool(errored), true
-				}
-				if isTaskField(v, "Skipped") {
-					return an.ABool(skipped), true
-				}
-				return an.AVal{}, false
-			}
-			ex.Effect = func(in ssa.Instruction, st *an.State) string {
-				if sto, ok := in.(*ssa.Store); ok {
-					ap := an.AccessPath(sto.Addr)
-					if ap.LastField() == "ExitCode" && an.TypeIs(ap.Base.Type(), "pkg/task", "Task") {
-						return "ExitCode:=" + st.Eval(sto.Val).String()
-					}
-				}
-				return ""
-			}
-			var outs []an.Outcome
-			if reset == r.run {
-				c.Und(rule, an.Short(reset)+":table", resetStore.Pos(), "reset is not in a closure of its own")
-				return
-			}
-			outs = ex.Run(reset, reset.Blocks[0], nil, nil)
-			name := fmt.Sprintf("errored=%v/skipped=%v", errored, skipped)
-			want := !errored && !skipped
-			bad := ""
-			var cells []string
-			for _, o := range outs {
-				cells = append(cells, strings.Join(o.Effects, ","))
-				has := false
-				for _, e := range o.Effects {
-					if e == "ExitCode:=0" {
-						has = true
-					} else if strings.HasPrefix(e, "ExitCode:=") {
-						bad = "writes " + e
-					}
-				}
-				if has != want {
-					if want {
-						bad = "does not reset ExitCode to 0 for a task that succeeded"
-					} else {
-						bad = "resets ExitCode although the task failed or was skipped"
-					}
-				}
-			}
-			table = append(table, fmt.Sprintf("%-30s -> %v", name, dedup(cells)))
-			if bad != "" {
-				c.Bad(rule, an.Short(reset)+":row "+name, resetStore.Pos(), "%s: the deferred function %s", name, bad)
-			} else {
-				c.OK(rule, an.Short(reset)+":row "+name, resetStore.Pos(), "%v", dedup(cells))
-			}
+	// the reset table is read off the Run trace: on every exit of Run, ExitCode := 0 has been
+	// executed iff neither the errored nor the skip event occurred (every helper inlined)
+	checkRunTable(c, rule, map[string]bool{"reset": true})
+	// writers of the result fields: only code that runs as part of TaskRunner.Run (the tables
+	// above and C06.3 decide where in it), and constructors
+	inScope := map[*ssa.Function]bool{}
+	for _, f := range r.scope {
+		for _, a := range an.WithAnon(f) {
+			inScope[a] = true
 		}
 	}
-	c.Tables["reset("+an.Short(reset)+")"] = table
-	// writers of the result fields
-	allowed := map[string]map[*ssa.Function]string{
-		"ExitCode": {r.execute: "status of the failing command", reset: "deferred reset"},
-		"Errored":  {r.execute: "failure rows of the job walk"},
-		"Error":    {r.execute: "failure rows of the job walk"},
-		"Skipped":  {r.run: "skip branch"},
-	}
+	n := 0
 	for _, fn := range p.Funcs {
 		an.EachInstr(fn, func(in ssa.Instruction) {
 			sto, ok := in.(*ssa.Store)
@@ -247,25 +162,28 @@ func deferredReset(c *an.Ctx, r *runnerRoles, rule string) {
 				return
 			}
 			name := an.AccessPath(fa).LastField()
-			al, tracked := allowed[name]
-			if !tracked {
+			switch name {
+			case "ExitCode", "Errored", "Error", "Skipped":
+			default:
 				return
 			}
+			n++
 			key := an.Short(fn) + ":write(Task." + name + ")"
-			if why, ok := al[fn]; ok {
-				c.OK(rule, key, sto.Pos(), "%s", why)
+			if inScope[fn] {
+				c.OK(rule, key, sto.Pos(), "written as part of TaskRunner.Run")
 				c.Site(rule, key)
 				return
 			}
 			if a, ok := fa.X.(*ssa.Alloc); ok && a.Heap && a.Parent() == fn {
-				// constructor literal
 				c.OK(rule, key, sto.Pos(), "initialisation of a freshly allocated task")
 				return
 			}
-			c.Bad(rule, key, sto.Pos(), "Task.%s is written by %s, outside the job walk / skip branch / deferred reset", name, an.Short(fn))
+			c.Bad(rule, key, sto.Pos(), "Task.%s is written by %s, which is not part of TaskRunner.Run: the recorded result no longer reflects what the job walk saw", name, an.Short(fn))
 		})
 	}
-	// whole-struct copies (t := *shared) carry the fields along; they are not writes of a result
+	if n == 0 {
+		c.Und(rule, "Task.{ExitCode,Errored,Error,Skipped}:writers", r.run.Pos(), "nothing writes the task's result fields")
+	}
 }
 
 func errorChainToMain(c *an.Ctx, r *runnerRoles, rule string) {
